@@ -76,6 +76,40 @@ Calibration (unchanged tree)
 * arg-reductions: a result equal to NumPy's is accepted before the "index holds the extreme" facet is applied:
   np.nanargmin([nan, inf]) returns 0 (NumPy substitutes +inf for NaN and takes the first), which dask reproduces.
 
+Parameter audit (families appended to the random stream with their own RNG; the original stream is unchanged; every family has a
+counter ``audit_<family>`` and class counters with floors, see ``_count_classes``)
+* ``scanblocks``: every block count 7..33 along the scanned axis, Blelloch twice and sequential once per count (the up/down-sweep
+  has one shape per count: a seeded change of the downsweep start was only wrong for 7, 8, 13-16, 25-32 blocks), plus axis=None
+  of 2-d arrays (flatten + rechunk to npartitions-sized pieces); set ``blelloch_block_counts_7_33``.
+* ``deeptree``: 5..40 blocks along a reduced axis with split_every 2|3|4|5|None|dict, so that the tree has 3+ levels also for
+  the default split_every (> 16 blocks); reductions over 2-3 axes of which ONE needs the deep tree, first or last
+  (``multi_axis_earlier_axis_deeper_runs`` / ``..later..``; depths computed with dask's own rule in ``_tree_depths``).
+* ``params``: non-default values of every remaining parameter on the original shape distribution: ``out=`` (a dask array of
+  the result's shape and dtype, or a 1-tuple of it: the call must return it and it must compute to NumPy's result), the Array
+  method instead of the function (``x.std(...)``), non-integer ddof (0.5, 1.5), ``dtype=`` and order 5 for moment, split_every
+  4|5|8|16, per-axis values 4|5 and the documented global default ``dask.config.set(split_every=n)``, all 13 quantile methods,
+  a Python-int q (0|1, finite float data), a 2-d q (quantile), ``weights=`` (1-d along the axis or of the array's shape, NumPy or
+  dask array, method inverted_cdf; np.nanquantile only takes full-shape weights, its reference broadcasts the 1-d weights).
+* ``xdtype``: complex64, int16, uint32, uint64, float16 (float16 not for products).  ``nd4``: 4-d arrays with pairwise
+  different axis lengths.  ``bigchunk``: axes of 258..700 elements with a block of more than 255 elements (products only on integer data).
+* ``masked``: the array is ``big[..., mask, ...]`` with a 1-d boolean dask mask along one axis (dropped rows inserted inside the
+  chunks, no chunk becomes empty): mode ``unknown`` runs sum..nanstd, moment and topk on the array with unknown (NaN) chunk sizes
+  (dask's documented "chunk sizes are unknown" ValueError -> unsupported: nanmin / nanmax), mode ``sized`` runs every operation
+  after ``compute_chunk_sizes()``.
+Label features of these parameters (``unknown-chunks``, ``after-compute_chunk_sizes``, ``out=given``, ``method-form``,
+``weights=1d|full``, ``ddof-noninteger``, ``split_every=config``) are only added when the symptom disappears without the parameter.
+Not generated: ``where=`` / ``initial=`` (dask's reductions have no such parameter), ``overwrite_input=True`` (documented
+NotImplementedError), ``interpolation=`` (deprecated alias of method).
+
+Calibration (parameter audit)
+* Python-int q only on finite data: np.quantile(x, 0) takes an integer-index shortcut and returns -inf where np.quantile(x, 0.0)
+  computes -inf + inf * 0 = NaN; dask converts the weak scalar to the array's float dtype and follows the float path.
+* Python-int q on integer data is not generated (NumPy returns the integer input dtype there).
+* 2-d q only for quantile: np.nanquantile places the axes of an n-d q differently for int and tuple axes (moveaxis of one axis).
+* long floating products stay excluded in the new families (> 216 elements: integer data).
+* moment with dtype= narrower than the input: the reference forms x - mean in the input precision as np.var(dtype=) does
+  (casting x first gave 0/0 = NaN for a single element with ddof=1 where NumPy's var and dask give residue/0 = inf).
+
 Sibling facet (vf/mon/siblings.py): every case is also built a second time with ONE result-relevant parameter changed
 (another axis / keepdims / ddof / split_every / order / scan method / k / q / quantile method / dtype=).
 The two lazily built collections must not share output keys unless their stand-alone values are equal (label
@@ -103,27 +137,47 @@ RULE = ("cases = (operation, shape, dtype, data seed/flavour, chunking, axis sel
         "flavours (small dyadic with NaN/inf/-0.0, clean, inf, ties, non-dyadic normal) plus 'nanlanes' for the nan* "
         "operations (NaN segments aligned with the chunk grid: a block holds an all-NaN lane next to partially-NaN lanes), "
         "random chunkings. "
+        "Parameter-audit families (own RNG, appended): scans over every block count 7..33, reduction trees with 3+ levels and "
+        "several axes of different depth, out= / method form / non-integer ddof / moment dtype= / split_every 4..16 and from "
+        "dask.config / 13 quantile methods / int and 2-d q / weights, five further dtypes, 4-d arrays, blocks of > 255 elements, "
+        "arrays behind a boolean dask mask with unknown chunk sizes and after compute_chunk_sizes(). "
         "non-trivial = some axis split into >= 2 chunks; distinct = distinct (op, shape, dtype, chunks, axis, keepdims, "
         "split_every, parameters).")
 ASSUMPTIONS = ["NumPy 2.x defines expected values, dtype and shape", "sync scheduler",
                "moment / topk / argtopk have no NumPy function: the reference is their documented definition"]
 BUDGET = {"quick": 60, "thorough": 700}
-FLOORS = {  # ~45 % of the counts measured on the current tree (quick: 5904 cases / ~4780 distinct)
-    "quick": {"evaluations": 2600, "distinct_nontrivial": 2100,
-              "counters": {"compared": 3200, "arg_compared": 830, "combine_level_runs": 660, "split_every_pairs": 1400,
-                           "scan_blelloch": 190, "scan_sequential": 190, "topk_checked": 160, "lazy_meta_checked": 4000,
-                           "nanlane_cases": 600, "nanlane_allnan_segment_next_to_mixed_lane": 140},
+FLOORS = {  # ~45 % of the smallest count of the five quick seeds on the current tree (quick: 7845 cases / ~6350 distinct)
+    "quick": {"evaluations": 3500, "distinct_nontrivial": 2850,
+              "counters": {"compared": 4100, "arg_compared": 1060, "combine_level_runs": 1060, "split_every_pairs": 1740,
+                           "scan_blelloch": 265, "scan_sequential": 260, "topk_checked": 240, "lazy_meta_checked": 5200,
+                           "nanlane_cases": 760, "nanlane_allnan_segment_next_to_mixed_lane": 165},
               "sets": {"op_axis_kind": 120}, "max_skipped_fraction": 0.2},
-    "thorough": {"evaluations": 50000, "distinct_nontrivial": 38000,
-                 "counters": {"compared": 51000, "arg_compared": 14000, "combine_level_runs": 12000, "split_every_pairs": 16000,
-                              "scan_blelloch": 4300, "scan_sequential": 4400, "topk_checked": 5100, "lazy_meta_checked": 65000,
-                              "nanlane_cases": 12500, "nanlane_allnan_segment_next_to_mixed_lane": 2800},
+    "thorough": {"evaluations": 60000, "distinct_nontrivial": 47000,      # ~40 % of 151124 cases / 117784 distinct (seed 0)
+                 "counters": {"compared": 63000, "arg_compared": 18400, "combine_level_runs": 19000, "split_every_pairs": 21000,
+                              "scan_blelloch": 5300, "scan_sequential": 5100, "topk_checked": 5900, "lazy_meta_checked": 81000,
+                              "nanlane_cases": 14300, "nanlane_allnan_segment_next_to_mixed_lane": 3200},
                  "sets": {"op_axis_kind": 120}, "max_skipped_fraction": 0.2},
 }
 # sibling facet (vf/mon/siblings.py): ~45 % of the smallest count of the five quick seeds on the unchanged tree; thorough =
-# quick floor x (thorough / quick stream size) x 0.6.  A run in which the facet never executed is INCONCLUSIVE.
-FLOORS["quick"]["counters"].update({"siblings_built": 2600, "siblings_computed_together": 380, "siblings_with_different_values": 235})
-FLOORS["thorough"]["counters"].update({"siblings_built": 29000, "siblings_computed_together": 4300, "siblings_with_different_values": 2600})
+# ~40 % of the thorough count (seed 0).  A run in which the facet never executed is INCONCLUSIVE.
+FLOORS["quick"]["counters"].update({"siblings_built": 3500, "siblings_computed_together": 495, "siblings_with_different_values": 315})
+FLOORS["thorough"]["counters"].update({"siblings_built": 60000, "siblings_computed_together": 8900, "siblings_with_different_values": 5500})
+# parameter audit: quick = ~45 % of the smallest count of the five quick seeds; thorough = quick floor x 18 (the families are
+# repeated AUDIT_THOROUGH_FACTOR = 20 times: ~40 % of the thorough counts)
+_AUDIT_FLOORS = {"audit_scanblocks": 54, "audit_deeptree": 126, "audit_params": 340, "audit_xdtype": 99, "audit_nd4": 58,
+                 "audit_bigchunk": 49, "audit_masked": 144,
+                 "scan_blelloch_blocks_7_33": 44, "scan_sequential_blocks_7_33": 30,
+                 "tree_depth_ge3_runs": 355, "tree_depth_ge3_default_split_every_runs": 57,
+                 "multi_axis_earlier_axis_deeper_runs": 190, "multi_axis_later_axis_deeper_runs": 220,
+                 "split_every_from_config_runs": 68, "split_every_ge4_runs": 105,
+                 "out_checked": 330, "method_form_cases": 68, "float_ddof_cases": 35, "moment_dtype_cases": 9,
+                 "quantile_weighted_cases": 18, "q_2d_cases": 7, "q_python_int_cases": 2,
+                 "xdtype_cases": 96, "nd4_cases": 58, "block_gt_255_elements_cases": 43,
+                 "unknown_chunks_cases": 65, "sized_after_mask_cases": 66}
+FLOORS["quick"]["counters"].update(_AUDIT_FLOORS)
+FLOORS["thorough"]["counters"].update({k: int(v * 18) for k, v in _AUDIT_FLOORS.items()})
+for _t in ("quick", "thorough"):
+    FLOORS[_t]["sets"].update({"blelloch_block_counts_7_33": 27, "quantile_methods": 13, "quantile_weight_kinds": 5, "xdtype_op": 48})
 EXHAUSTIVE_SPACE = ("all chunkings of shapes (4,) and (2,3) x {sum, max, mean, cumsum(sequential), cumsum(blelloch), argmin} "
                     "x all axis choices x keepdims x split_every in {2, None} x {int64 with ties, float64 with NaN}; "
                     "all 32 chunkings of the (4,3) nan-lane array [[nan,nan,7],[nan,1,9],[4,5,8],[3,6,nan]] x "
@@ -440,7 +494,7 @@ def _decorate(rng, d, p):
         cand = [v for v in (0.5, 1.5) if op.startswith("nan") or v <= nred]
         if cand:
             d["ddof"] = rng.choice(cand)
-    if op == "moment" and rng.random() < 0.6 * p:
+    if op == "moment" and rng.random() < p:
         pool = [t for t in ("float32", "float64") if np.can_cast(np.dtype(d["dtype"]), np.dtype(t), "same_kind")]
         if pool:
             d["dtype_arg"] = rng.choice(pool)
@@ -464,9 +518,9 @@ def _decorate(rng, d, p):
         if rng.random() < p:
             d["qmethod"] = rng.choice(ALL_QMETHODS)
         u = rng.random()
-        if u < 0.2 * p and isf:
-            d["q"] = rng.choice((0, 1))                    # python int (weakly typed scalar)
-        elif u < 0.5 * p and op == "quantile":
+        if u < 0.35 * p and isf and d["flavour"] not in ("inf", "small"):
+            d["q"] = rng.choice((0, 1))                    # python int (weakly typed scalar); finite data, see Calibration
+        elif u < 0.7 * p and op == "quantile":
             # (np.nanquantile lays the axes of an n-d q out differently for int and tuple axes: no reference, see Calibration)
             ncol = rng.randint(1, 3)
             d["q"] = [[rng.choice((0.0, 0.1, 0.25, 0.5, 0.7, 1.0)) for _ in range(ncol)] for _ in range(2)]   # 2-d q
@@ -1114,7 +1168,8 @@ def _scale(x):
 
 def _moment_ref(x, order, axis, keepdims, ddof, dtype=None):
     dt = np.dtype(dtype) if dtype else np.var(np.ones((1,), dtype=x.dtype)).dtype
-    xf = x.astype(dt)
+    # as np.var with dtype=: the mean is taken in dt, the deviations x - mean keep the (possibly wider) input precision
+    xf = x if (dtype and x.dtype.kind == "f") else x.astype(dt)
     nd = x.ndim
     red = _norm_axes(axis, nd)
     n = 1
@@ -1317,7 +1372,11 @@ def run_case(case, ctx, _classify=True):
                     if r is not out:
                         bad = True
                         f_ = ["order<2"] if (op == "moment" and case.get("order", 2) < 2) else []
-                        ctx.violation("%s:%s:result-is-not-out" % ("std" if op in STDLIKE else op, "&".join(f_ + ["out=given"])),
+                        if fam == "cum":
+                            f_.append(case["method"])      # the two scan methods end in different functions
+                        ctx.violation("%s:%s:result-is-not-out" % ("std" if op in STDLIKE else "arg-reduction" if fam == "arg" else
+                                                                     "scan" if fam == "cum" else op,
+                                                                     "&".join(f_ + ["out=given"])),
                                       "the call returned an array that is not `out`; out now computes to %s, NumPy's result is %s"
                                       % (_short(out), _short(e)), split_every=repr(se))
                 m = _check_one(case, ctx, fam, op, x, e, rv, axis, kd, nred, scale,
